@@ -16,6 +16,9 @@ structure SchemaSmall (cols : List Col) : Prop where
   count : cols.length < 10000
   names : ∀ c ∈ cols, isStr (FileReal.strBytes c.name) = true
   typeLens : ∀ c ∈ cols, c.typeLen < 2147483648
+  /-- the parameters of a logical type are what `carquet_logical_type_t` can hold: `int32_t` scale and
+  precision, `int8_t` bit_width -/
+  logicals : ∀ c ∈ cols, ThriftParquet.okOpt ThriftParquet.LogicalType.wf c.logical = true
 
 /-- the written file is small: shorter than 2 GiB, at most 32768 row groups (`ordinal` is an
 `int16_t`), every column chunk with fewer than 2^31 values and 2^31 uncompressed bytes (the numbers
@@ -275,7 +278,7 @@ theorem runSmall_of_output (o : FileReal.Oracle) (codec : Nat)
     · rw [hf.cols_eq]; exact hs.count
     · intro c hc
       rw [hf.cols_eq] at hc
-      exact ⟨hs.names c hc, hs.typeLens c hc⟩
+      exact ⟨⟨hs.names c hc, hs.typeLens c hc⟩, hs.logicals c hc⟩
     · rw [hf.createdBy_eq]; exact isStr_carquet
     · -- num_rows of the file
       rw [hf.numRows_eq]
